@@ -100,6 +100,13 @@ theorem C04_checked_gives_up :
     runQueriesChecked gDep 13 {} [qWarm, qDep] = [some (some [.nm 0]), none] ∧
     runQueriesChecked gDep 13 {} [qDep] = [none] := by decide +kernel
 
+/-- and the exact evaluator gives the pure evaluator's answers there, in both histories -/
+theorem C04_exact_on_witnesses :
+    runQueriesExact gSingle 15 {} [qSingle] = [some (some [.undef "b", .nm 0])] ∧
+    runQueriesExact gDep 13 {} [qWarm, qDep] = [some (some [.nm 0]), some (some [.nm 0])] ∧
+    runQueriesExact gDep 13 {} [qDep] = [some (some [.nm 0])] ∧
+    lookupAt gDep 13 1 (9, 9) "b" = some (some [.nm 0]) := by decide +kernel
+
 /-- `for i …: c; for j …: (if …: y); d` then `z`: an extractor-shaped graph with NESTED loops.
     flow 1 = outer head (back edge: loop 1 from flow 5), flow 2 = inner head (loop 2 from flow 4) -/
 def gNested : Graph :=
@@ -132,10 +139,12 @@ def nestedAll : List Query :=
   (List.range 7).flatMap (fun f => ["x", "i", "c", "j", "y", "d", "z"].map (fun k => ⟨f, (9, 9), k⟩))
 
 def nestedAgrees (qs : List Query) : Bool :=
-  runQueries gNested 40 {} qs == qs.map (fun q => lookupAt gNested 40 q.flow q.pos q.key)
+  runQueries gNested 40 {} qs == qs.map (fun q => lookupAt gNested 40 q.flow q.pos q.key) &&
+  runQueriesExact gNested 40 {} qs == runQueries gNested 40 {} qs
 
-/-- the real evaluator agrees with the pure one on all 49 queries of `gNested`, asked in any of
-    the 49 rotations of the list and their reversals (98 histories) -/
+/-- the real evaluator agrees with the pure one AND with the exact evaluator (the hypothesis of
+    `C04_history_validated`) on all 49 queries of `gNested`, asked in any of the 49 rotations of
+    the list and their reversals (98 histories) -/
 theorem C04_nested_agrees_observationally :
     (List.range 49).all (fun k =>
       nestedAgrees (nestedAll.drop k ++ nestedAll.take k) &&
